@@ -570,3 +570,92 @@ Proof.
     apply assoc_in_keys in Ad. apply in_map_iff in Ad as [[k' v'] [Ek Hin]]. cbn in Ek. subst k'.
     rewrite forallb_forall in Vdef. apply Vdef in Hin. cbn in Hin. apply has_key_assoc in Hin as [w Hw]. congruence.
 Qed.
+
+(* ================================================================== C10: nested messages *)
+(* a nested message handed to its deserializer as the dict (or the JSON text) of the nested object comes back
+   with exactly its entries: the JSON reading is tried first and succeeds *)
+Theorem nested_dict_roundtrip c m f :
+  valid_msg c m = true -> f <> WUrl ->
+  exists d r, to_dict c m = Ok d /\ one_of c f (VDict d) = Ok r /\ same_entries r m.
+Proof.
+  intros V F. destruct (dict_roundtrip c m V) as (d & r & D & K & S).
+  exists d, r. split; [exact D|]. split; [|exact S].
+  assert (O : one_of_order f = [WJson; WUrl]) by (destruct f; [reflexivity|reflexivity|contradiction]).
+  unfold one_of. rewrite O. cbn [try_formats deser_as]. rewrite K. reflexivity.
+Qed.
+
+(* ... and as form text under sformat = "urlencoded" (the guard of finding F17 as for top-level messages) *)
+Theorem nested_form_roundtrip c m :
+  valid_form c m = true -> list_elems_no_space c m = true ->
+  exists t r, to_urlencoded c m = Ok t /\ one_of c WUrl (VStr t) = Ok r /\ form_entries_of r m.
+Proof.
+  intros V S. destruct (urlencoded_roundtrip c m V S) as (t & r & T & R & E).
+  exists t, r. split; [exact T|]. split; [|exact E].
+  unfold one_of. cbn [one_of_order try_formats deser_as]. rewrite R. reflexivity.
+Qed.
+
+(* ================================================================== C11: verify() with a request object *)
+Lemma has_key_cons {V} k k' (v : V) r :
+  has_key k ((k', v) :: r) = str_eqb k k' || has_key k r.
+Proof. unfold has_key. cbn. destruct (str_eqb k k'); reflexivity. Qed.
+
+Lemma keep_keys_has k ro m : has_key k (keep_keys ro m) = true -> has_key k ro = true.
+Proof.
+  induction m as [|[k' v'] r IH]; [discriminate|]. cbn [keep_keys List.filter fst].
+  destruct (has_key k' ro) eqn:H.
+  - rewrite has_key_cons. intros K. apply orb_true_iff in K as [K|K]; [|now apply IH].
+    apply str_eqb_eq in K. now subst.
+  - exact IH.
+Qed.
+
+Lemma msg_update_has k ro m : has_key k (msg_update ro m) = true -> has_key k ro = true \/ has_key k m = true.
+Proof.
+  revert m. induction ro as [|[k' v'] r IH]; intros m; [now right|]. cbn [msg_update fold_left fst snd].
+  intros H. apply IH in H as [H|H].
+  - left. rewrite has_key_cons, H. apply orb_true_r.
+  - destruct (str_eqb k k') eqn:E.
+    + left. rewrite has_key_cons, E. reflexivity.
+    + right. unfold has_key in *. rewrite assoc_aset_other in H; [exact H|].
+      intros ->. now rewrite str_eqb_refl in E.
+Qed.
+
+(* whatever the request object holds: an accepted message satisfies the schema as it stands afterwards *)
+Theorem unpack_request_sound strict c roc payload m m' :
+  unpack_request strict c roc payload m = Ok m' -> schema_ok c m' = true.
+Proof.
+  unfold unpack_request. destruct payload as [p|]; [|discriminate].
+  destruct (construct roc p) as [ro|e|]; cbn [bind]; try discriminate.
+  destruct (generic_verify c _) as [[]|e|] eqn:G; cbn [bind]; try discriminate.
+  intros H. inversion H; subst. now apply generic_verify_iff.
+Qed.
+Theorem jar_verify_sound c roc payload m m' : jar_verify c roc payload m = Ok m' -> schema_ok c m' = true.
+Proof.
+  unfold jar_verify. destruct (has_key (PS "request") m); [apply unpack_request_sound|].
+  destruct (has_key (PS "request_uri") m); [|discriminate].
+  destruct (generic_verify c m) as [[]|e|] eqn:G; cbn [bind]; try discriminate.
+  intros H. inversion H; subst. now apply generic_verify_iff.
+Qed.
+Theorem par_verify_sound c roc payload m m' : par_verify c roc payload m = Ok m' -> schema_ok c m' = true.
+Proof.
+  unfold par_verify. destruct (has_key (PS "request") m); [apply unpack_request_sound|].
+  destruct (generic_verify c m) as [[]|e|] eqn:G; cbn [bind]; try discriminate.
+  intros H. inversion H; subst. now apply generic_verify_iff.
+Qed.
+
+(* the strict merge keeps only what the request object carries: an accepted JWT-secured request has every
+   required parameter INSIDE the signed object (a complete outer request does not make up for it) *)
+Theorem jar_required_in_object c roc p m m' ro q :
+  find_param verified_request (c_params c) = None ->
+  has_key (PS "request") m = true -> jar_verify c roc (Some p) m = Ok m' -> construct roc p = Ok ro ->
+  In q (c_params c) -> p_req q = true -> p_name q <> star -> has_key (p_name q) ro = true.
+Proof.
+  intros Hvr Hreq Hv Hro Hin Hq Hstar. unfold jar_verify in Hv. rewrite Hreq in Hv.
+  unfold unpack_request in Hv. rewrite Hro in Hv. cbn [bind] in Hv.
+  destruct (generic_verify c _) as [[]|e|] eqn:G; cbn [bind] in Hv; try discriminate.
+  destruct (generic_verify_sound c _ q G Hin Hstar) as [R _]. destruct (R Hq) as (v & A & _).
+  pose proof (find_param_none _ _ Hvr q Hin) as Hne.
+  rewrite assoc_aset_other in A by congruence.
+  assert (K : has_key (p_name q) (request_merge true ro m) = true) by (unfold has_key; now rewrite A).
+  unfold request_merge in K. apply msg_update_has in K as [K|K]; [exact K|].
+  now apply keep_keys_has in K.
+Qed.
